@@ -17,7 +17,8 @@ Requests (one per line, answers one line each):
   lput <id> <keyhex> <valhex>       Trie.Put(key, value)                           -> ok | err:put
   lhash <id>                        Trie.Hash() (rehashes dirty paths)             -> <term> | err:hash
   lreopen <id>                      drop the object, open a new one on the storage -> ok
-  bnew <id> <height> <ped|pos>      trie2 with node database, tracer and lazy resolution  -> ok
+  bnew <id> <height> <ped|pos> <0|1> trie2 with node database, tracer and lazy resolution (1 = tracer records the
+                                    absolute path of a deleted last-level leaf)           -> ok
   bput <id> <keyhex> <valhex>       Trie.Update                                     -> ok | err:update
   bhash <id>                        Trie.Hash()                                     -> <term>
   bget <id> <keyhex>                Trie.Get through unresolved nodes               -> <term> | err:get
@@ -177,11 +178,11 @@ def step (s : St) (line : String) : St × String :=
       | some (_, t) => ({ s with legacy := (id, Legacy.reopen t) :: s.legacy.filter (·.1 != id) }, "ok")
       | none => (s, "bad-op")
     | none => (s, "bad-op")
-  | ["bnew", id, h, k] =>
-    match id.toNat?, h.toNat?, kindOf? k with
-    | some id, some h, some k =>
-      ({ s with lazyT := (id, Trie2S.openTrie h k []) :: s.lazyT.filter (·.1 != id) }, "ok")
-    | _, _, _ => (s, "bad-op")
+  | ["bnew", id, h, k, fix] =>
+    match id.toNat?, h.toNat?, kindOf? k, fix.toNat? with
+    | some id, some h, some k, some fix =>
+      ({ s with lazyT := (id, Trie2S.openTrie h k [] (fix != 0)) :: s.lazyT.filter (·.1 != id) }, "ok")
+    | _, _, _, _ => (s, "bad-op")
   | ["bput", id, key, val] =>
     match id.toNat?, hexToNat? key, hexToNat? val with
     | some id, some key, some val =>
@@ -207,7 +208,7 @@ def step (s : St) (line : String) : St × String :=
     | some id, some key =>
       match s.lazyT.find? (·.1 == id) with
       | some (_, t) =>
-        match Trie2S.get ⟨t.height, t.disk⟩ (2 * t.height + 4) t.root [] (natToPath t.height key) with
+        match Trie2S.get ⟨t.height, t.disk, false⟩ (2 * t.height + 4) t.root [] (natToPath t.height key) with
         | some v => (s, termStr v)
         | none => (s, "err:get")
       | none => (s, "bad-op")
